@@ -231,9 +231,15 @@ def _run_core(prop, tier, seed, v, wd):
                 dcmd = [binp, "drive-gw", str(seed), str(ntr), trace_file]
             else:
                 dcmd = [binp, "drive-core", prop, str(seed), "0", str(ntr), trace_file]
-            p = subprocess.run(dcmd, stdout=subprocess.PIPE, stderr=subprocess.STDOUT, text=True, timeout=HARNESS_TIMEOUT)
+            p = run_harness(dcmd, stdout=subprocess.PIPE, stderr=subprocess.STDOUT, text=True, timeout=HARNESS_TIMEOUT)
             if p.returncode != 0:
-                raise Broken("driver failed: " + p.stdout[-2000:])
+                frame = oom_in_whispertool(p.stdout)
+                if not frame:
+                    raise Broken("driver failed: " + p.stdout[-2000:])
+                v.violation("the library asks for more than %d GiB of memory during a driver history on files of a few kilobytes: allocation in %s"
+                            % (HARNESS_MEM_GB, frame), {"kind": "core-oom", "prop": prop, "seed": seed, "frame": frame}, None)
+                open(trace_file, "w").close()
+                ntr = 0
         results = [(k, meta, f.result()) for k, meta, f in futs]
 
     replayed_edges = replayed_states = fetches = compared = 0
@@ -246,9 +252,15 @@ def _run_core(prop, tier, seed, v, wd):
                             "wall_s": round(res["wall"], 1)})
         else:
             outj = res["path"] + ".replay.json"
-            p = subprocess.run([binp, "core", prop, res["path"], outj], stdout=subprocess.PIPE,
-                               stderr=subprocess.STDOUT, text=True)
+            p = run_harness([binp, "core", prop, res["path"], outj])
             if p.returncode != 0:
+                if os.environ.get("VERIF_DEBUG_DUMP"):
+                    open(os.environ["VERIF_DEBUG_DUMP"], "w").write(p.stdout)
+                frame = oom_in_whispertool(p.stdout)
+                if frame:
+                    v.violation("the library asks for more than %d GiB of memory while transitions / fetches on files of a few kilobytes are replayed: allocation in %s"
+                                % (HARNESS_MEM_GB, frame), {"kind": "core-oom", "prop": prop, "seed": seed, "config": list(meta), "frame": frame}, None)
+                    continue
                 raise Broken("replay failed: " + p.stdout[-2000:])
             r = json.load(open(outj))
             replayed_edges += r["edges"]
@@ -291,10 +303,14 @@ def _run_core(prop, tier, seed, v, wd):
     if prop in SIM_PLAN:
         bf, nb = simulate_behaviours(wd, prop, tier, seed)
         outj = os.path.join(wd, "paths.json")
-        p = subprocess.run([binp, "core-path", prop, bf, outj], stdout=subprocess.PIPE, stderr=subprocess.STDOUT, text=True, timeout=HARNESS_TIMEOUT)
-        if p.returncode != 0:
+        p = run_harness([binp, "core-path", prop, bf, outj])
+        if p.returncode != 0 and oom_in_whispertool(p.stdout):
+            v.violation("the library asks for more than %d GiB of memory while a behaviour is replayed on a live handle: allocation in %s"
+                        % (HARNESS_MEM_GB, oom_in_whispertool(p.stdout)), {"kind": "core-oom", "prop": prop, "seed": seed}, None)
+            p = None
+        if p is not None and p.returncode != 0:
             raise Broken("core-path failed: " + p.stdout[-1500:])
-        rp = json.load(open(outj))
+        rp = json.load(open(outj)) if p is not None else {"behaviours": 1, "steps": 0, "compared": 0, "violations": [], "samples": []}
         if rp["behaviours"] == 0:
             raise Broken("no behaviour was replayed")
         for viol in rp["violations"]:
@@ -310,7 +326,7 @@ def _run_core(prop, tier, seed, v, wd):
     if prop == "C05":
         # CLI part: a copy / sum-copy failing before its final Sync leaves an existing destination untouched
         outj = os.path.join(wd, "c05cli.json")
-        p = subprocess.run([binp, "c05-cli", str(seed), str({"quick": 8, "thorough": 80}[tier]), outj],
+        p = run_harness([binp, "c05-cli", str(seed), str({"quick": 8, "thorough": 80}[tier]), outj],
                            stdout=subprocess.PIPE, stderr=subprocess.STDOUT, text=True)
         if p.returncode != 0:
             raise Broken("c05-cli failed: " + p.stdout[-1500:])
